@@ -20,7 +20,7 @@ RULE = ("seeded scalar (vectorize=False) models over the documented function set
         "must equal dense; non-trivial = at least 2 state variables and one off-diagonal non-zero entry; distinct = distinct "
         "(spec, mode) hash")
 DECIDING = ['entries_compared', 'offdiag_nonzero_entries', 'hist_entries_compared', 'sparse_checks', 'ode_models', 'dde_models',
-            'entries_vs_reference', 'whole_number_delays', 'auto_jacobian_exports']
+            'entries_vs_reference', 'whole_number_delays', 'auto_jacobian_exports', 'input_jacobian_points']
 ASSUMPTIONS = ['probe points whose finite differences with step h and h/2 disagree (kinks of absv/maxi) are discarded',
                'history Jacobians are matched to delays as a set (the API does not name them)']
 CASE_TIMEOUT = 240
@@ -43,6 +43,8 @@ def plan(tier, seed):
     # the auto-07p DFDU / DFDP blocks obey the same identity (w.r.t. state and parameters): exports with up to 26 parameters,
     # compiled with gfortran -fcheck=all and compared with central differences of the exported FUNC (machinery of C18)
     cases += [{'family': 'auto_jacobian', 'cseed': rnd.randrange(1 << 30), 'mode': 'auto'} for _ in range(8 if tier == 'quick' else 120)]
+    # extrinsic inputs that multiply a state variable, adaptive solver (the input is a function of time inside J as well)
+    cases += [{'family': 'inputs', 'cseed': rnd.randrange(1 << 30), 'mode': 'ode'} for _ in range(20 if tier == 'quick' else 300)]
     return cases
 
 
@@ -168,7 +170,68 @@ def fd_jac(fun, y, h=1e-4):
     return central(h), central(2 * h)
 
 
+def run_input_case(case, ctx):
+    """Jacobian of a model that receives an extrinsic input which MULTIPLIES a state variable (adaptive solver: the input is
+    interpolated in time): the matrix from get_jacobian_func(inputs=...) at times inside the input window against central
+    differences of the function from get_run_func(inputs=...) of the same spec and input."""
+    from vp import expr as E
+    rnd = random.Random(case['cseed'])
+    mech = {}
+    for attempt in range(300):
+        spec, feats, risk = gen.gen_net(rnd, pool=gen.SAFE_POOL, n_nodes=rnd.choice([1, 2]), max_types=2, depth=0, forbid=ctx['excluded'],
+                                        funcs=FUNCS, edge_density=0.3)
+        ref = RefModel(spec)
+        ins = [k for k in ref.param_keys if ref.kind[k] == 'in' and not ref._intra_sources(k) and not any(e['tgt'] == k for e in ref.edges)]
+        cand = [(k, e_) for k in ins for e_ in spec['ops'][k[1]]['eqs'] if e_[0] == 'de']
+        if cand:
+            break
+    else:
+        raise RuntimeError('generator could not satisfy the constraints')
+    (node, opn, v_in), eq = rnd.choice(cand)
+    eq[2] = E.tolist(E.add(E.fromlist(eq[2]), E.mul(E.num(round(rnd.uniform(0.5, 1.5), 3)), E.mul(E.var(v_in), E.var(eq[1])))))
+    N, dt = rnd.choice([11, 40, 200]), 1e-3 if rnd.random() < 0.5 else 1e-2
+    arr = np.linspace(0.0, rnd.uniform(5.0, 10.0), N) if rnd.random() < 0.5 else 3.0 * np.sin(np.linspace(0.0, 6.0, N))
+    path = f'{node}/{opn}/{v_in}'
+    res = {'features': ['jacobian_with_extrinsic_input', f'N{N}'], 'risk': [], 'sig': stable_hash([spec, N, dt]), 'nontrivial': True}
+    try:
+        try:
+            obs = observe.compile_vf(spec, vectorize=False, solver='scipy', step_size=dt, inputs={path: arr.copy()})
+            tmpl, _ = build.build_python(spec)
+            J, jargs, jnames, jsmap = tmpl.get_jacobian_func('jac', step_size=dt, vectorize=False, verbose=False, clear=True, in_place=False,
+                                                             float_precision='float64', solver='scipy', inputs={path: arr.copy()})
+        except Exception as e:
+            import traceback
+            raise observe.Mismatch(f"loud: get_run_func / get_jacobian_func with inputs raised {type(e).__name__}: {e} :: {traceback.format_exc()[-300:]}")
+        if {k: v for k, v in dict(jsmap).items() if k in obs['smap']} != {k: v for k, v in dict(obs['smap']).items() if k in jsmap}:
+            raise observe.Mismatch(f"state ordering of the Jacobian {jsmap} differs from get_run_func's {obs['smap']}")
+        n = len(np.asarray(obs['args'][1]))
+        T = N * dt
+        for pt in range(4):
+            t = rnd.uniform(0.15, 0.9) * T
+            y = np.array([rnd.gauss(0, 0.8) for _ in range(n)])
+            Jfd, Jc = fd_jac(lambda yv: observe.call_vf(obs, obs['args'], yv.copy(), t=t), y)
+            if not np.allclose(Jfd, Jc, rtol=1e-5, atol=1e-7):
+                continue
+            J0 = np.asarray(J(t, y.copy(), *list(jargs)[2:]), dtype=float)
+            if J0.shape[0] < n:
+                raise observe.Mismatch(f"Jacobian has shape {J0.shape} for a state vector of length {n}")
+            err = np.abs(J0[:n, :n] - Jfd)
+            i, j = np.unravel_index(int(np.argmax(err)), err.shape)
+            if not err[i, j] <= 2e-6 * max(1.0, float(np.max(np.abs(Jfd)))):
+                raise observe.Mismatch(f"extrinsic input ({N} samples, step {dt}) multiplying a state variable: J[{i},{j}] at t={t!r} is {J0[i, j]!r}, "
+                                       f"central differences of the vector field with the same input give {Jfd[i, j]!r}")
+            mech['entries_compared'] = mech.get('entries_compared', 0) + n * n
+            mech['input_jacobian_points'] = mech.get('input_jacobian_points', 0) + 1
+        res.update(status='ok', symptom='', mech=mech)
+    except observe.Mismatch as e:
+        s2 = str(e)
+        res.update(status='violation', symptom=('silent: ' if 'loud' not in s2 else '') + s2, mech=mech, spec=spec)
+    return res
+
+
 def run_case(case, ctx):
+    if case.get('family') == 'inputs':
+        return run_input_case(case, ctx)
     if case.get('family') == 'auto_jacobian':
         from vp.props import c18
         res = c18.run_case(case, ctx)
